@@ -302,3 +302,386 @@ def known_class_confirmed(r, k, error_indices):
         if mset != set(plain_seq(s) for s in inp.errors[ei][3]):
             return False
     return verdict
+
+
+# =====================================================================================================================
+# Added for C05/C07 (ext-c05deep): (a) deep parse stacks, (b) the applied repair is a function of the input.
+# Nothing above this line is changed by these additions.
+# =====================================================================================================================
+
+# /repo ca69cd1: simplify_repairs deduplicates in insertion order and sorts stably, so the reported LIST (order included)
+# and the applied sequence are a function of the input.  False = the pinned behaviour (HashSet + sort_unstable_by): a
+# different ORDER of the same set is then tolerated (counted), everything else still alarms.
+REPAIR_ORDER_FIXED = True
+
+DEEP_GRAMMARS = {1: "%start S\n%%\nS: 'a' S 'b' | 'c';\n", 2: "%start S\n%%\nS: 'a' S | 'b' 'c' | ;\n"}
+DEEP_INPUT = {1: "a^n c c b^n (one surplus 'c')", 2: "a^n b ('c' missing at the end of the input)"}
+DEEP_BUDGET_MS = 60000        # an empty repair list must not be a scheduling artefact: these searches need a handful of nodes
+DEEP_TIMEOUT_S = 300
+DEEP_CONTROL = 2000
+
+
+def deep_ladder(ctx):
+    """(grammar, nesting depth, thread stack MiB); the control depth comes first for each grammar"""
+    # (release profile: the pinned Rc chain teardown needs ~32 bytes of native stack per parse-stack entry, i.e. it overflows
+    # 2 MiB from ~65 000 entries and 8 MiB from ~260 000; 60 000 is the depth named by the audit, 200 000 is 3x the threshold)
+    lad = [(g, DEEP_CONTROL, 2) for g in (1, 2)] + [(g, n, 2) for g in (1, 2) for n in (60000, 200000)]
+    if not ctx.quick:
+        lad += [(g, n, m) for g in (1, 2) for n, m in ((20000, 2), (100000, 2), (200000, 8), (500000, 8), (500000, 2), (1000000, 8))]
+    return lad
+
+
+def deep_expected(which, n, tk):
+    """analytic oracle for depth n: (lexeme index of the one error, the applied sequence, the leaves of the value as runs
+    (tidx, faulty, len, start, count)); replay lexer: lexeme i spans (2i, 2i+1), an inserted lexeme at the end of the input
+    sits at the end of the last lexeme"""
+    a, b, c = tk
+    if which == 1:      # a^n c [c deleted] b^n
+        return n + 1, ["D%d" % (n + 1)], [(a, 0, 1, 0, n), (c, 0, 1, 2 * n, 1), (b, 0, 1, 2 * n + 4, n)]
+    return n + 1, ["I%d" % c], [(a, 0, 1, 0, n), (b, 0, 1, 2 * n, 1), (c, 1, 0, 2 * n + 1, 1)]
+
+
+class DeepRun:
+    def __init__(self, which, n, mib, p):
+        self.which, self.n, self.mib = which, n, mib
+        self.rc = p.returncode if p is not None else None
+        self.stderr = ((p.stderr or "") if p is not None else "timeout")[-400:]
+        out = [l for l in ((p.stdout or "") if p is not None else "").splitlines() if l.startswith("DEEP ")]
+        self.line = out[0] if out else None
+        self.returned = self.line is not None and self.rc == 0
+        self.tk, self.errors, self.value, self.leaves, self.ms, self.nlex, self.conflicts = None, [], None, None, 0, None, None
+        if not self.returned:
+            return
+        for s in sections(self.line):
+            if not s:
+                continue
+            if s[0] == "TK":
+                d = dict(x.split("=") for x in s[1:])
+                self.tk = (int(d["a"]), int(d["b"]), int(d["c"]))
+            elif s[0] == "NL":
+                self.nlex = int(s[1])
+            elif s[0] == "CF":
+                self.conflicts = s[1] == "1"
+            elif s[0] == "ER":
+                self.errors.append([int(s[1]), int(s[2]), int(s[3]), []])
+            elif s[0] == "RS" and self.errors:
+                self.errors[-1][3].append(s[1:])
+            elif s[0] == "VL":
+                self.value = " ".join(s[1:])
+            elif s[0] == "LV":
+                self.leaves = [tuple(int(x) for x in r.split(":")) for r in s[1:]]
+            elif s[0] == "TM":
+                self.ms = int(s[1])
+
+
+def deep_run(which, n, mib):
+    exe = core.build_harness("repair")
+    try:
+        p = core.sh([exe, "deep", str(which), str(n), str(mib)], timeout=DEEP_TIMEOUT_S, limit_mem=True,
+                    env={"GRMTOOLS_VERIF_RECOVERY_BUDGET_MS": str(DEEP_BUDGET_MS)})
+    except Exception:
+        p = None
+    return DeepRun(which, n, mib, p)
+
+
+def deep_why(run, control):
+    """what the property demands of one deep run -> list of failures (empty = holds)"""
+    which, n = run.which, run.n
+    if not run.returned:
+        sig = (" (signal %d)" % -run.rc) if (run.rc or 0) < 0 else ""
+        return ["the parse does not return: the process ended with status %s%s instead of handing back (value, errors); stderr: %s"
+                % (run.rc, sig, run.stderr.strip().replace("\n", " | ")[-300:])]
+    why = []
+    pos, seq, leaves = deep_expected(which, n, run.tk)
+    if run.value is not None and run.value.startswith("panic"):
+        return ["the parse panics: " + run.value[:200]]
+    if len(run.errors) != 1:
+        why.append("%d errors reported, the input has exactly one (at lexeme %d)" % (len(run.errors), pos))
+    elif run.errors[0][0] != pos:
+        why.append("the error is reported at lexeme %d, it is at lexeme %d" % (run.errors[0][0], pos))
+    if run.errors:
+        e = run.errors[0]
+        if not e[3]:
+            why.append("the error carries no repair sequence although %d ms of a %d ms budget were used (a handful of search "
+                       "nodes finds %s)" % (run.ms, DEEP_BUDGET_MS, " ".join(seq)))
+        elif e[3][0] != seq:
+            why.append("repairs()[0] is [%s], expected [%s]" % (" ".join(e[3][0]), " ".join(seq)))
+        if control is not None and control.returned and control.errors and e[3]:
+            ce = control.errors[0]
+            shift = n - control.n
+            want = [[st if st[0] == "I" else st[0] + str(int(st[1:]) + shift) for st in q] for q in ce[3]]
+            if e[1] != ce[1]:
+                why.append("error state %d, at nesting depth %d the same error is met in state %d" % (e[1], control.n, ce[1]))
+            if e[3][:16] != want[:16] or e[2] != ce[2]:
+                why.append("the reported list differs from the one at nesting depth %d (positions shifted): %s vs %s"
+                           % (control.n, [" ".join(q) for q in e[3][:6]], [" ".join(q) for q in want[:6]]))
+    if run.errors and all(e[3] for e in run.errors):
+        if run.value != "some":
+            why.append("every error carries a repair but no value is returned")
+        elif run.leaves != leaves:
+            why.append("the leaves of the returned value do not spell the repaired input: runs (tidx, faulty, len, start, count) "
+                       "%s, expected %s" % (run.leaves[:8], leaves))
+    elif run.value == "some":
+        why.append("a value is returned although an error carries no repair")
+    return why
+
+
+def deep_check(ctx):
+    """(a) of ext-c05deep: the two auditor grammars at growing nesting depth, each parse in a process of its own on a
+    thread with an explicit stack.  One obligation per rung."""
+    import concurrent.futures, time
+    t0 = time.time()
+    lad = deep_ladder(ctx)
+    with concurrent.futures.ThreadPoolExecutor(max_workers=min(core.NPROC, len(lad))) as ex:
+        runs = list(ex.map(lambda x: deep_run(*x), lad))
+    control = dict((r.which, r) for r in runs if r.n == DEEP_CONTROL)
+    for r in runs:
+        why = deep_why(r, None if r.n == DEEP_CONTROL else control.get(r.which))
+        ctx.count("deep_stack_runs")
+        ctx.count("deep_stack_%s" % ("ok" if not why else "does_not_return" if not r.returned else "wrong_result"))
+        ctx.case("deep %d %d %d" % (r.which, r.n, r.mib), True,
+                 {"grammar": DEEP_GRAMMARS[r.which], "input": DEEP_INPUT[r.which], "depth": r.n, "thread_stack_MiB": r.mib,
+                  "errors": [(e[0], e[1], e[2]) for e in r.errors], "first_sequences": [" ".join(q) for e in r.errors for q in e[3][:2]],
+                  "value": r.value, "leaves_runs": r.leaves, "wall_ms": r.ms})
+        if why:
+            ctx.violation({"what": "deep parse stack at the error: " + "; ".join(why),
+                           "grammar": DEEP_GRAMMARS[r.which], "input": DEEP_INPUT[r.which], "nesting_depth_n": r.n,
+                           "lexemes": r.nlex, "thread_stack_MiB": r.mib, "recoverer": "CPCTPlus", "costs": "default (1)",
+                           "exit_status": r.rc, "stderr_tail": r.stderr, "harness_line": (r.line or "")[:600],
+                           "control_depth": DEEP_CONTROL,
+                           "replay": "GRMTOOLS_VERIF_RECOVERY_BUDGET_MS=%d .work/target/release/repair deep %d %d %d"
+                                     % (DEEP_BUDGET_MS, r.which, r.n, r.mib)})
+        ctx.oblige(not why)
+    ctx.coverage["deep_stack_wall_s"] = round(time.time() - t0, 1)
+    ctx.coverage["deep_stack_rule"] = (
+        "grammars %s on %s; (grammar, nesting depth, thread stack MiB) = %s; one process per run (harness `repair deep`), parse "
+        "on a std::thread::Builder::stack_size thread, release profile; oracle computed analytically: exit status 0, one error "
+        "at lexeme n+1, repairs()[0] = [Delete c] resp. [Insert c], the reported list = the list at depth %d with positions "
+        "shifted, value present, its leaves (collected in deques, so that the harness itself does not recurse) = the repaired input"
+        % (sorted(DEEP_GRAMMARS.values()), sorted(DEEP_INPUT.values()), lad, DEEP_CONTROL))
+
+
+# ---- (b) the reported list, the applied sequence and (value, later errors) are a function of the input -----------------
+DET_REPS = 8               # parses of one input within one process (process A)
+DET_OTHER_REPS = 3         # parses within each of the further processes
+DET_PROCS = 4              # the original run + 3 further processes
+DET_WATCHDOG_MS = 180000
+DET_MAX_REPORTS = 6
+
+
+def det_family():
+    """inputs whose error has MANY equally ranked repair sequences (the applied one used to be drawn by hash order)"""
+    from gen.grammars import Gram
+    t, rr = (lambda x: ('t', x)), (lambda x: ('r', x))
+    aud = Gram(["a", "b", "c", "d", "e", "f"], [("S", [[t("a"), rr("B"), t("c")]]), ("B", [[t("b")], [t("d")], [t("e")], [t("f")]])])
+    aud2 = Gram(["a", "b", "c", "d"], [("S", [[t("a"), rr("B"), t("c")]]), ("B", [[t("b")], [t("d")]])])
+    audav = Gram(["a", "b", "c", "d", "e", "f"], [("S", [[t("a"), rr("B"), t("c")]]), ("B", [[t("b")], [t("d")], [t("e")], [t("f")]])],
+                 avoid_insert=["b", "e"])
+
+    def wide(k):
+        return Gram(["a", "b", "c", "d", "x"], [("S", [[rr("A")] * k + [t("x")]]), ("A", [[t("a")], [t("b")], [t("c")], [t("d")]])])
+    # lists: a missing element / separator has several equal-cost repairs at every error, many errors per input
+    lst = Gram(["n", "m", "k", ",", ";", "(", ")"],
+               [("L", [[rr("E")], [rr("L"), rr("Sep"), rr("E")]]), ("Sep", [[t(",")], [t(";")]]),
+                ("E", [[t("n")], [t("m")], [t("k")], [t("("), rr("L"), t(")")]])])
+    lst_in = ["n , , m".split(), "n n".split(), "( n , ) ; ; m ( k".split(), "n , ( , m ) ; k k ; ( ) n".split(), [], [","], ["("]]
+    ac = [["a", "c"], ["a"], ["c"], [], ["a", "c", "c"], ["a", "a", "c"]]
+    return [("manyrank_aud4", aud, "unit", {}, ac), ("manyrank_aud2", aud2, "unit", {}, ac),
+            ("manyrank_aud4_avoid", audav, "unit", {}, ac), ("manyrank_aud4_costs", aud, "d3", {"d": 3, "f": 2}, ac),
+            ("manyrank_wide2", wide(2), "unit", {}, [[], ["x"], ["a", "x"], ["a"]]),
+            ("manyrank_wide3", wide(3), "unit", {}, [[], ["x"], ["a", "x"], ["a", "b"]]),
+            ("manyrank_wide4", wide(4), "unit", {}, [[], ["x"], ["a", "b", "x"]]),
+            ("manyrank_list", lst, "unit", {}, lst_in)]
+
+
+def _det_line(g, costs, inputs, rep, only):
+    l = case_line(g, costs, inputs)
+    head, rest = l.split(" ; ", 1)
+    return "%s nodump=1 rep=%d only=%s ; %s" % (head, rep, ",".join(str(i) for i in only), rest)
+
+
+def _input_groups(line):
+    groups = []
+    for sec in line.split(" # "):
+        if sec == "I" or sec.startswith("I "):
+            groups.append([sec])
+        elif groups:
+            groups[-1].append(sec)
+    return groups
+
+
+class _DetRun:
+    def __init__(self, group):
+        self.errors, self.value, self.ms, self.dt, self.dx = [], None, 0, None, None
+        # (BO, the order of the builder's setter calls, is a function of the input's index within its case line: run_cases re-runs
+        # a case whose line hung input by input, each at index 0.  The RESULT must not depend on it, so it is not compared.)
+        self.norm = " # ".join(s for s in group if s.split(" ", 1)[0] not in ("TM", "DT", "DX", "BO"))
+        for sec in group:
+            s = sec.split()
+            if not s:
+                continue
+            if s[0] == "ER":
+                self.errors.append([int(s[1]), int(s[2]), int(s[3]), []])
+            elif s[0] == "RS" and self.errors:
+                self.errors[-1][3].append(" ".join(s[1:]))
+            elif s[0] == "VL":
+                self.value = " ".join(s[1:])
+            elif s[0] == "TM":
+                self.ms = int(s[1])
+            elif s[0] == "DT":
+                self.dt = (int(s[1]), int(s[2]), int(s[3]))
+            elif s[0] == "DX":
+                self.dx = bytes.fromhex(s[1]).decode()
+
+    def short(self):
+        return {"errors(lexeme,state,n_repairs)": [(e[0], e[1], e[2]) for e in self.errors[:10]],
+                "lists": [e[3][:8] for e in self.errors[:6]], "value": (self.value or "")[:240], "wall_ms": self.ms}
+
+
+def det_diff(r0, r1, budget_ms):
+    """two parses of one input -> None (identical) | ("budget", text) (one of them ran out of recovery time: allowed) |
+    ("order", text) (same sets, different order) | ("differs", text)"""
+    if r0.norm == r1.norm:
+        return None
+    for i in range(max(len(r0.errors), len(r1.errors))):
+        if i >= len(r0.errors) or i >= len(r1.errors):
+            return "differs", "one parse reports %d errors, the other %d (same lists and applied sequences before)" % (len(r0.errors), len(r1.errors))
+        e0, e1 = r0.errors[i], r1.errors[i]
+        if e0[:2] != e1[:2]:
+            return "differs", "error %d is at (lexeme %d, state %d) in one parse and at (lexeme %d, state %d) in the other" % ((i,) + tuple(e0[:2]) + tuple(e1[:2]))
+        if e0[3] != e1[3]:
+            if not e0[3] or not e1[3]:
+                if max(r0.ms, r1.ms) >= 0.5 * budget_ms:
+                    return "budget", "error %d: one parse ran out of recovery time" % i
+                return "differs", ("error %d carries %d sequences in one parse and none in the other, although neither came near the "
+                                   "recovery budget (%d / %d ms of %d)" % (i, max(len(e0[3]), len(e1[3])), r0.ms, r1.ms, budget_ms))
+            if sorted(e0[3]) == sorted(e1[3]):
+                if e0[3][0] != e1[3][0]:
+                    return "order", ("error %d: the same %d sequences in a different order; the APPLIED sequence (repairs()[0]) is [%s] in "
+                                     "one parse and [%s] in the other" % (i, len(e0[3]), e0[3][0], e1[3][0]))
+                return "order", "error %d: the same %d sequences, the same first one, the rest in a different order" % (i, len(e0[3]))
+            return "differs", "error %d carries a different SET of sequences (%d vs %d)" % (i, len(e0[3]), len(e1[3]))
+    if r0.value != r1.value:
+        return "differs", "same errors, same lists, different value"
+    return "differs", "the harness sections differ (counts of faulty-but-not-zero-length / misplaced inserted leaves)"
+
+
+def determinism(ctx, results, budget_ms=BUDGET_MS):
+    """clause (b): every erroneous input of `results` (as returned by run_cases; cheap ones in the quick tier) is parsed
+    DET_REPS times in one further process and DET_OTHER_REPS times in two more: the repairs() LIST of every error (order
+    included), hence the applied sequence, and (value, later errors) must be identical in all of them and equal to the
+    original run's.  Two obligations (within a process / across processes) + one for reach (ties exist)."""
+    import time
+    t0 = time.time()
+    exe = core.build_harness("repair")
+    max_ms = ctx.n(100, 400)
+    jobs = []
+    for r in results:
+        if not r.ok:
+            continue
+        if len(r.inputs) != len(r.inputs_req):
+            ctx.count("det_case_skipped(input with unknown token or not returned)")
+            continue
+        sel = []
+        for k, inp in enumerate(r.inputs):
+            if not inp.errors or inp.value is None or not (inp.value.startswith("acc ") or inp.value == "none"):
+                continue
+            if inp.ms > max_ms:
+                ctx.count("det_input_skipped_expensive(>%d ms)" % max_ms)
+                continue
+            sel.append(k)
+        if sel:
+            jobs.append((r, sel))
+    if not jobs:
+        return
+    env = {"GRMTOOLS_VERIF_RECOVERY_BUDGET_MS": str(budget_ms), "GVH_CASE_TIMEOUT_MS": str(DET_WATCHDOG_MS)}
+    outs = []
+    for p in range(DET_PROCS - 1):
+        rep = DET_REPS if p == 0 else DET_OTHER_REPS
+        lines = [_det_line(r.gram, r.costs, r.inputs_req, rep, sel) for r, sel in jobs]
+        o = core.run_lines([exe], lines, env=env)
+        for i, x in enumerate(o):
+            if not x.startswith("G"):
+                # (watchdog / crash: once more, alone)
+                o[i] = core.run_lines([exe], [lines[i]], env=env, shards=1)[0]
+        outs.append((lines, o))
+    bad = {"in_process": 0, "across_processes": 0}
+    ties = 0
+
+    def report(r, inp, where, kind, text, a, b, line):
+        key = "in_process" if where.startswith("repeat") else "across_processes"
+        if kind == "budget":
+            ctx.count("det_difference_excused_budget")
+            return
+        if kind == "order" and not REPAIR_ORDER_FIXED:
+            ctx.count("det_order_differs_tolerated(REPAIR_ORDER_FIXED=False)")
+            return
+        bad[key] += 1
+        ctx.count("det_ALARM_%s_%s" % (key, kind))
+        if ctx.hist.get("det_violation_reports", 0) >= DET_MAX_REPORTS:
+            ctx.count("det_violations_not_reported(cap)")
+            return
+        ctx.count("det_violation_reports")
+        ctx.violation({"what": "the same input parsed again (%s) does not give the same result: %s" % (where, text),
+                       "grammar": r.src, "costs": r.costs, "input": r.names(inp.toks), "input_tidxs": inp.toks,
+                       "conflicts": r.conflicts, "first_parse": a.short(), "other_parse": b.short(),
+                       "recovery_budget_ms": budget_ms, "harness_case_line": line,
+                       "replay": "echo '<harness_case_line>' | GRMTOOLS_VERIF_RECOVERY_BUDGET_MS=%d .work/target/release/repair"
+                                 % budget_ms})
+
+    for j, (r, sel) in enumerate(jobs):
+        orig_groups = _input_groups(r.impl_line)
+        for p, (lines, o) in enumerate(outs):
+            out = o[j]
+            if not out.startswith("G"):
+                bad["across_processes"] += 1
+                ctx.count("det_ALARM_repeat_run_does_not_return")
+                if ctx.hist.get("det_violation_reports", 0) < DET_MAX_REPORTS:
+                    ctx.count("det_violation_reports")
+                    ctx.violation({"what": "inputs that returned (value, errors) in the first run: parsing them again (%d times each in a "
+                                           "fresh process) does not return" % (DET_REPS if p == 0 else DET_OTHER_REPS),
+                                   "grammar": r.src, "costs": r.costs, "inputs": [r.names(r.inputs[k].toks) for k in sel],
+                                   "impl": out[:300], "harness_case_line": lines[j]})
+                continue
+            groups = _input_groups(out)
+            if len(groups) != len(sel):
+                ctx.violation({"what": "harness repair: %d input groups answered for %d selected inputs" % (len(groups), len(sel)),
+                               "harness_case_line": lines[j], "broken_correspondence": "repair harness only=/rep= options"}, no_input=True)
+                bad["across_processes"] += 1
+                continue
+            for k, grp in zip(sel, groups):
+                inp = r.inputs[k]
+                first = _DetRun(orig_groups[k]) if k < len(orig_groups) else None
+                run = _DetRun(grp)
+                if p == 0:
+                    ctx.count("det_inputs")
+                    ctx.count("det_errors", len(run.errors))
+                    t = sum(1 for e in run.errors if len(e[3]) >= 2)
+                    ties += t
+                    ctx.count("det_errors_with_several_sequences", t)
+                    ctx.count("det_errors_with_10+_sequences", sum(1 for e in run.errors if len(e[3]) >= 10))
+                ctx.count("det_parses", (run.dt[0] if run.dt else 1))
+                if run.dt and run.dt[1]:
+                    other = _DetRun(run.dx.split(" # ")) if run.dx else run
+                    d = det_diff(run, other, budget_ms) or ("differs", "sections differ")
+                    report(r, inp, "repeat within one process: %d of %d repeats differ from the first parse" % (run.dt[1], run.dt[0]),
+                           d[0], d[1], run, other, lines[j])
+                if first is not None:
+                    d = det_diff(first, run, budget_ms)
+                    if d:
+                        report(r, inp, "a separate process (process %d of %d)" % (p + 2, DET_PROCS), d[0], d[1], first, run, lines[j])
+    ctx.oblige(bad["in_process"] == 0)
+    ctx.oblige(bad["across_processes"] == 0)
+    if ties == 0:
+        ctx.violation({"what": "no evaluated error carries two or more repair sequences: the determinism clause no longer sees a tie",
+                       "broken_correspondence": "vlib/repair.py determinism: family with many equally ranked repairs"}, no_input=True)
+    ctx.oblige(ties > 0)
+    ctx.coverage["determinism_wall_s"] = round(time.time() - t0, 1)
+    ctx.coverage["determinism_rule"] = (
+        "every input of the run that reports an error and returned (parse <= %d ms in this tier; the rest counted) is parsed again: "
+        "%d times within one fresh process and %d times in each of %d more (so %d processes with the original run); compared: the "
+        "complete ER/RS/VL/ZL/ZP sections = repairs() list of every error with its order, applied sequence, later errors, value tree, "
+        "leaf-flag counts (not TM, nor BO: the builder-call order is an input of the harness that the result must not depend on). "
+        "A difference is excused only where one of the two parses reports NO sequence for the first differing error after >= half "
+        "the recovery budget (the property allows giving up on time).  Families with many equally ranked sequences: %s"
+        % (max_ms, DET_REPS, DET_OTHER_REPS, DET_PROCS - 2, DET_PROCS, ", ".join(c[0] for c in det_family())))
